@@ -182,3 +182,32 @@ func init() {
 		},
 	})
 }
+
+func init() {
+	register(propSpec{
+		ID: "C15",
+		Explanation: "Determinism is decided as the absence of every source of run-to-run or context dependence in the output path: DET.MAPRANGE (no range over a map anywhere in package rewriter / cmd/cogen), DET.SOURCES (no call into time, math/rand, crypto/rand, os.Getpid/Hostname/MkdirTemp/Getenv), RW.FILEPASSES (import names, generator sets and collected comments are re-initialised for every file before the first pass; passes in fixed order), DET.GENSYM (the unique-name counter advances by one per temporary, names use the new value, and the counter lives in an object allocated once per file or is reset per file), DET.TMP (the intermediate directory is emptied before use and its removal deferred, so outputs of earlier runs cannot reach the result), RW.TMPL.RANGE (iterator temporaries come from gensym). File order from the loader and go/printer are trusted.",
+		Trusted: []string{"go/packages file order", "go/printer", "go/ssa construction"},
+		Run: func(c *Ctx) {
+			r := newRwRT(c)
+			c.guard("DET.MAPRANGE", func() { ruleDetScan(c) })
+			c.guard("RW.FILEPASSES", r.ruleFilePasses)
+			c.guard("DET.GENSYM", r.ruleGensym)
+			c.guard("DET.TMP", r.ruleTmpDir)
+			c.guard("RW.TMPL.RANGE", r.ruleTmplRange)
+		},
+	})
+	register(propSpec{
+		ID: "C16",
+		Explanation: "go:generate mode is decided as necessary conditions read from GoGen / cmd/cogen by abstract interpretation with constant folding of the string functions involved: GEN.HEADER (the header constant is `//go:build !<tag>`, blank line, a line matching Go's generated-code convention; parsed with go/build/constraint), GEN.TAG (the tag given to the rewrite-stage loader is the tag the header negates), GEN.FILTER (exactly *_<suffix>.go and *_<suffix>_test.go are processed: 7 names), GEN.NAME (both printers evaluated on 5 paths incl. base names and directories containing '_co': exactly the sibling with the suffix removed is written, via the intermediate directory), DET.TMP (intermediate directory emptied before and removed after, on every exit), OPT.ORDER (a rewritten file that does not use seq is not written), GEN.ENV (cogen runs GoGen on the working directory only when GOFILE is set). Not decided: that the package builds and its tests pass afterwards, byte-idempotence of a second run, the exact directory contents — these quantify over file-system states and toolchain behaviour.",
+		Trusted: []string{"go-loader file filter / build tag options", "go/ssa construction", "os and path/filepath"},
+		Run: func(c *Ctx) {
+			r := newRwRT(c)
+			c.guard("GEN.HEADER", r.ruleGenHeader)
+			c.guard("GEN.TAG", r.ruleGoGen)
+			c.guard("DET.TMP", r.ruleTmpDir)
+			c.guard("OPT.ORDER", r.ruleOptOrder)
+			c.guard("GEN.ENV", r.ruleGenEnv)
+		},
+	})
+}
